@@ -4,14 +4,14 @@ J = "json_to_models/"
 EXTRA = [
     ("label_start_helper", "the loop that makes a label start with a letter is extracted into a helper", [
         (J + "models/base.py",
-         "    while s.strip(\"_\") and not s[0].isalpha():\n        if s[0] == \"_\":\n            s = s[1:] + \"_\"\n"
+         "    while s.strip(\"_\") and not (s[0] != \"_\" and s[0].isidentifier()):\n        if s[0] == \"_\":\n            s = s[1:] + \"_\"\n"
          "        elif s[0].isdecimal():\n            s = ones[unicodedata.decimal(s[0])] + \"_\" + s[1:]\n"
          "        else:\n            s = s[1:]\n",
          "    s = _start_with_letter(s)\n"),
         (J + "models/base.py",
          "def prepare_label(s: str, convert_unicode: bool, to_snake_case: bool) -> str:",
          "def _start_with_letter(s: str) -> str:\n"
-         "    while s.strip(\"_\") and not s[0].isalpha():\n        if s[0] == \"_\":\n            s = s[1:] + \"_\"\n"
+         "    while s.strip(\"_\") and not (s[0] != \"_\" and s[0].isidentifier()):\n        if s[0] == \"_\":\n            s = s[1:] + \"_\"\n"
          "        elif s[0].isdecimal():\n            s = ones[unicodedata.decimal(s[0])] + \"_\" + s[1:]\n"
          "        else:\n            s = s[1:]\n    return s\n\n\n"
          "def prepare_label(s: str, convert_unicode: bool, to_snake_case: bool) -> str:"),
